@@ -1,6 +1,8 @@
 import IcyVerif.Lemmas.PaletteIdx
 import IcyVerif.Lemmas.PaletteSix
 import IcyVerif.Lemmas.PaletteFiles
+import IcyVerif.Lemmas.PaletteStream
+import IcyVerif.Lemmas.PaletteBridge
 /-! # C16 — palette indices are stable, palette files round-trip, the 6-bit VGA codec is idempotent
 Only property theorems and non-vacuity examples live here.  Palettes are arbitrary lists (any length), histories are
 arbitrary lists of operations, metadata are arbitrary strings (lists of code points). -/
@@ -131,6 +133,34 @@ example : (importM .txt (exportM .txt demo)).map Pal.rgbs = some demo.rgbs := by
 example : (importM .pal (exportM .pal demo)).map Pal.rgbs = some demo.rgbs := by decide +kernel
 example : (importM .hex (exportM .hex demo)).map Pal.rgbs = some demo.rgbs := by decide +kernel
 
+/-- `import_palette` (dispatch on the file extension, any letter case folded by `to_ascii_lowercase`) reads back what
+    `export_palette` wrote, for every extension it knows (pal, gpl, txt, hex; there is none for the ICE format) -/
+theorem import_by_extension (p : Pal) (hv : p.ValidColors) :
+    ∀ e ∈ importExts, ∃ f q, fmtOfNum e.2 = some f ∧ importByExt e.1 (exportM f p) = some q ∧ q.rgbs = p.rgbs := by
+  intro e he
+  simp only [importExts, List.mem_cons, List.not_mem_nil, or_false] at he
+  rcases he with rfl | rfl | rfl | rfl
+  · obtain ⟨q, h1, h2⟩ := export_import .pal p hv; exact ⟨.pal, q, rfl, h1, h2⟩
+  · obtain ⟨q, h1, h2⟩ := export_import .gpl p hv; exact ⟨.gpl, q, rfl, h1, h2⟩
+  · obtain ⟨q, h1, h2⟩ := export_import .txt p hv; exact ⟨.txt, q, rfl, h1, h2⟩
+  · obtain ⟨q, h1, h2⟩ := export_import .hex p hv; exact ⟨.hex, q, rfl, h1, h2⟩
+
+example : importByExt [80, 65, 76] (exportM .pal demo) = importM .pal (exportM .pal demo) := rfl
+example : importByExt [105, 99, 101] (exportM .ice demo) = none := rfl
+
+/-- `Color::from_hex(c.to_hex()) = c` -/
+theorem color_hex_roundtrip (c : Rgb) (h : c.Valid) : colorFromHex (colorToHex c) = some c := by
+  have e : colorToHex c = 35 :: (hex6 c ++ []) := by simp [colorToHex, hex6]
+  rw [e, colorFromHex, findFirst]
+  have h35 : hexRun 6 (35 :: (hex6 c ++ [])) = none := by simp [hexRun, isHex]
+  rw [h35]
+  obtain ⟨x, t, hx, _, _⟩ := hex6_head c
+  have hr := hex6_run c []
+  simp only [hx, List.cons_append] at hr ⊢
+  rw [findFirst, hr]
+  simp only [Option.map_some, ← hx]
+  rw [rgbOfHex6_hex6 c h]
+
 /-- why `export_palette` must flatten: writing `demo` through `export_lines` directly (as the pinned tree did)
     lets the second line of its title come back as a colour -/
 theorem unflattened_multiline_injects : (importM .gpl (exportLines .gpl demo)).map Pal.rgbs ≠ some demo.rgbs := by
@@ -146,5 +176,144 @@ def pinnedGplTail (rest : List Nat) : Bool :=
 theorem pinned_gpl_empty_description (c : Rgb) (h : c.Valid) :
     ∃ t, findFirst rgbAt (gplLine c []) = some (t, [32]) ∧ pinnedGplTail [32] = false :=
   ⟨_, findFirst_gplLine c [] h, by decide⟩
+
+/-! ## palette blocks inside whole files (XBin, IDF): the functions of the whole-file model of C05 -/
+
+/-- load → save → load of an XBin / IDF palette block gives the same palette, for EVERY block of bytes (values above
+    63 included: the decoder drops the two high bits, the quantisation is a fixed point after one step) -/
+theorem file_block_idempotent (bs : List Nat) (hb : ∀ b ∈ bs, b < 256) :
+    BinFormats.from63 (BinFormats.asVec63 (BinFormats.from63 bs)) = BinFormats.from63 bs :=
+  PaletteBridge.from63_asVec63_from63 bs hb
+
+/-- save → load → save of a 6-bit block gives the same bytes (all 64 values of every channel) -/
+theorem file_block_six_bit (bs : List Nat) (hb : ∀ b ∈ bs, b < 64) (h3 : bs.length % 3 = 0) :
+    BinFormats.asVec63 (BinFormats.from63 bs) = bs := PaletteBridge.asVec63_from63_six bs hb h3
+
+/-- the decoder of the whole-file model IS `from63` of this property's model -/
+theorem file_decoder_is_from63 (bs : List Nat) (h3 : bs.length % 3 = 0) :
+    from63 bs = .ok ((BinFormats.from63 bs).map PaletteBridge.toC16) := PaletteBridge.from63_bridge bs h3
+
+example : BinFormats.from63 [39, 64, 255] = [(158, 4, 255)] := by decide
+example : BinFormats.asVec63 (BinFormats.from63 [39, 64, 255]) = [39, 1, 63] := by decide
+
+/-! ## the call sites: byte streams (ANSI SGR / `CSI … t` / OSC 4) and Tundra colour records
+
+State = (palette, caret foreground index, caret background index); a byte stream is decoded into operations
+(`Model/PalStream.lean`).  All statements are for EVERY state / EVERY history of operations. -/
+section stream
+open IcyVerif.PalStream IcyVerif.Gen.PalStream
+
+/-- THE INVARIANT over all histories: whenever the caret's foreground (background) was last selected BY COLOUR `c`
+    (38;5;n, 38;2;r;g;b, `CSI 1;r;g;b t`, a Tundra colour record) and the entry it was given has not been redefined by
+    OSC 4 since, the index the caret holds lies inside the palette and resolves to exactly `c` -/
+theorem tracked_resolves (s : St) (ops : List PalStream.Op) : Good (run s ops) (trackRun s Want.none ops) :=
+  good_run ops s Want.none (good_none s)
+
+/-- SELECT RESOLVES: after any history, a colour-selecting operation hands out an index that resolves to the colour -/
+theorem select_resolves (s : St) (ops : List PalStream.Op) (c : Rgb) :
+    (exec (run s ops) (.insFg c)).fg < (exec (run s ops) (.insFg c)).pal.length ∧
+    (exec (run s ops) (.insFg c)).pal.getD (exec (run s ops) (.insFg c)).fg black = c ∧
+    (exec (run s ops) (.insBg c)).bg < (exec (run s ops) (.insBg c)).pal.length ∧
+    (exec (run s ops) (.insBg c)).pal.getD (exec (run s ops) (.insBg c)).bg black = c :=
+  ⟨insertColor_idx_lt _ c, insertColor_getD _ c, insertColor_idx_lt _ c, insertColor_getD _ c⟩
+
+/-- … also through `get_rgb` (bit 31 of an index means "RGB given directly"): streams redefine only entries below
+    256 (`oscOps_onlySet`), so the palette stays far below 2^31 entries -/
+theorem select_resolves_rgb (s : St) (ops : List PalStream.Op) (c : Rgb) (hb : ∀ op ∈ ops, op.bound ≤ 256)
+    (hlen : max s.pal.length 256 + ops.length + 1 < 2147483648) :
+    getRgb (exec (run s ops) (.insFg c)).pal (exec (run s ops) (.insFg c)).fg = c := by
+  have h1 := run_len_le ops s 256 hb
+  have h2 := (select_resolves s ops c).1
+  have h3 := insertColor_length_le (run s ops).pal c
+  rw [getRgb_of_lt _ _ (by simp only [exec] at h2 ⊢; omega)]
+  exact (select_resolves s ops c).2.1
+
+/-- INSERT-ONLY STABLE: a history without OSC 4 redefinitions never changes what a valid index resolves to -/
+theorem insert_only_stable (s : St) (ops : List PalStream.Op) (i : Nat) (hi : i < s.pal.length)
+    (h : ∀ op ∈ ops, op.isSet = false) : getRgb (run s ops).pal i = getRgb s.pal i :=
+  getRgb_congr _ _ i (run_getD ops s i hi (fun op ho => not_sets_of_not_isSet (h op ho) i))
+
+/-- … and with redefinitions in the history: index `i` is stable as long as no OSC 4 names `i` itself -/
+theorem stream_history_stable (s : St) (ops : List PalStream.Op) (i : Nat) (hi : i < s.pal.length)
+    (h : ∀ op ∈ ops, ¬ op.sets i) : getRgb (run s ops).pal i = getRgb s.pal i :=
+  getRgb_congr _ _ i (run_getD ops s i hi h)
+
+/-- OSC 4 changes exactly entry `k` (growing the palette with black up to `k`), and not the caret -/
+theorem osc4_changes_exactly (s : St) (k : Nat) (c : Rgb) (hk : k < 2147483648) :
+    (exec s (.set k c)).fg = s.fg ∧ (exec s (.set k c)).bg = s.bg ∧ getRgb (exec s (.set k c)).pal k = c ∧
+    ∀ j, j ≠ k → getRgb (exec s (.set k c)).pal j = getRgb s.pal j :=
+  ⟨rfl, rfl, set_resolves s.pal k c hk, fun j hj => set_stable s.pal k j c hj⟩
+
+/-- which sequences can do what: SGR and `CSI … t` never redefine an entry, OSC does nothing but redefine entries
+    0..=255 (it never moves the caret colours), loading a Tundra file only inserts -/
+theorem sgr_never_redefines (nums : List Nat) : ∀ op ∈ (sgrOps nums).1, op.isSet = false := sgrOps_noSet nums
+theorem csi_t_never_redefines (nums : List Nat) : ∀ op ∈ (tOps nums).1, op.isSet = false := tOps_noSet nums
+theorem osc_only_redefines (payload : List Nat) :
+    ∀ op ∈ (oscOps payload).1, ∃ k c, op = .set k c ∧ k ≤ 255 := oscOps_onlySet payload
+theorem tnd_only_inserts (data : List Nat) (ops : List PalStream.Op) (e : End) (h : tndOps data = some (ops, e)) :
+    ∀ op ∈ ops, op.isSet = false := tndOps_noSet data ops e h
+
+/-- `ESC[38;5;n m` at ANY state (so: after any history, including OSC 4 redefinitions of the index an earlier lookup
+    of the same `n` was given): no error, and the caret foreground resolves to `XTERM_256_PALETTE[n]` -/
+theorem sgr_256_resolves (s : St) (n : Nat) (h : n ≤ 255) :
+    (sgrOps [38, 5, n]).2 = true ∧
+    (run s (sgrOps [38, 5, n]).1).pal.getD (run s (sgrOps [38, 5, n]).1).fg black = xterm n ∧
+    (sgrOps [48, 5, n]).2 = true ∧
+    (run s (sgrOps [48, 5, n]).1).pal.getD (run s (sgrOps [48, 5, n]).1).bg black = xterm n := by
+  have e1 : sgrOps [38, 5, n] = ([.insFg (xterm n)], true) := sgrOps_fg256 n h
+  have e2 : sgrOps [48, 5, n] = ([.insBg (xterm n)], true) := sgrOps_bg256 n h
+  rw [e1, e2]
+  exact ⟨rfl, insertColor_getD _ _, rfl, insertColor_getD _ _⟩
+
+/-- the same for 24-bit selections `ESC[38;2;r;g;b m` / `ESC[48;2;r;g;b m` -/
+theorem sgr_rgb_resolves (s : St) (c : Rgb) (h : c.Valid) :
+    (sgrOps [38, 2, c.r, c.g, c.b]).2 = true ∧
+    (run s (sgrOps [38, 2, c.r, c.g, c.b]).1).pal.getD (run s (sgrOps [38, 2, c.r, c.g, c.b]).1).fg black = c := by
+  have e1 : sgrOps [38, 2, c.r, c.g, c.b] = ([.insFg c], true) := sgrOps_fgRgb c h
+  rw [e1]
+  exact ⟨rfl, insertColor_getD _ _⟩
+
+/-- CELLS STORE INDICES: a cell written while the caret's foreground stood for colour `c` still shows `c` at the end
+    of the history, unless an OSC 4 redefined that very entry afterwards -/
+theorem cell_keeps_colour (s : St) (a b : List PalStream.Op) (t : Nat) (c : Rgb)
+    (hw : (trackRun s Want.none a).fg = some c) (hb : ∀ op ∈ b, ¬ op.sets (run s a).fg) :
+    (t, (run s a).fg, (run s a).bg) ∈ cells s (a ++ .put t :: b) ∧
+    (run s (a ++ .put t :: b)).pal.getD (run s a).fg black = c := by
+  refine ⟨cells_put s a b t, ?_⟩
+  have hg := (tracked_resolves s a).1
+  rw [hw] at hg
+  rw [run_append, run_cons]
+  show (run (run s a) b).pal.getD _ black = c
+  rw [run_getD b (run s a) _ hg.1 hb]
+  exact hg.2
+
+/-- a loaded Tundra palette starts with black and holds no colour twice (every record of a present colour got the
+    existing index) -/
+theorem tnd_palette_nodup (data : List Nat) (ops : List PalStream.Op) (e : End) (h : tndOps data = some (ops, e)) :
+    (run tndStart ops).pal.Nodup ∧ (run tndStart ops).pal.getD 0 black = black := by
+  refine ⟨run_nodup ops tndStart (tnd_only_inserts data ops e h) (by simp [tndStart]), ?_⟩
+  rw [run_getD ops tndStart 0 (by simp [tndStart]) (fun op ho => not_sets_of_not_isSet (tnd_only_inserts data ops e h op ho) 0)]
+  rfl
+
+/-- `fill_to_16` and `resize` keep every index that survives them; `resize n` leaves exactly `n` colours -/
+theorem fill_to_16_stable (p : List Rgb) (i : Nat) (hi : i < p.length) : getRgb (fillTo16 p) i = getRgb p i :=
+  getRgb_congr _ _ i (fillTo16_getD p i hi)
+theorem resize_stable (p : List Rgb) (n i : Nat) (hi : i < p.length) (hn : i < n) :
+    (resize p n).length = n ∧ getRgb (resize p n) i = getRgb p i :=
+  ⟨resize_length p n, getRgb_congr _ _ i (resize_getD p n i hi hn)⟩
+
+/-! non-vacuity: the seeded trigger `ESC[38;5;196m`, `ESC]4;16;rgb:01/02/03 ESC\`, `ESC[38;5;196m` from the DOS palette -/
+example : parseSeq [27, 91, 51, 56, 59, 53, 59, 49, 57, 54, 109] = .sgr [38, 5, 196] := by decide
+example : oscOps [52, 59, 49, 54, 59, 114, 103, 98, 58, 48, 49, 47, 48, 50, 47, 48, 51] = ([.set 16 ⟨1, 2, 3⟩], true) := by
+  decide +kernel
+example : let s := run ⟨dosDefault, 7, 0⟩ [.insFg (xterm 196), .set 16 ⟨1, 2, 3⟩, .insFg (xterm 196)]
+    (s.fg, s.pal.length, s.pal.getD s.fg black) = (17, 18, ⟨255, 0, 0⟩) := by decide +kernel
+example : (trackRun ⟨dosDefault, 7, 0⟩ Want.none [.insFg (xterm 196), .set 16 ⟨1, 2, 3⟩]).fg = none := by decide +kernel
+example : (trackRun ⟨dosDefault, 7, 0⟩ Want.none [.insFg (xterm 196), .set 3 ⟨1, 2, 3⟩, .put 0]).fg = some (xterm 196) := by
+  decide +kernel
+example : tOps [5, 300, 2, 3] = ([.ins ⟨44, 2, 3⟩], false) := by decide
+example : resize [⟨1, 1, 1⟩] 3 = [⟨1, 1, 1⟩, ⟨0, 0, 170⟩, ⟨0, 170, 0⟩] := by decide +kernel
+
+end stream
 
 end IcyVerif.C16
